@@ -122,7 +122,8 @@ def isClassNodePrivate(cls: model.Class) -> bool:
         return False
 
     for sc in cls.subclasses:
-        if not isClassNodePrivate(sc):
+        # Subclasses that are not listed (hidden, or superseded by a later definition) don't count.
+        if sc.isVisible and not isClassNodePrivate(sc):
             return False
 
     return True
